@@ -9,7 +9,7 @@ from hypothesis import strategies as st
 
 from pbt import models_legacy as L
 from pbt import xpath_ref as X
-from pbt.runtime import Ctx, Labels, Part, require
+from pbt.runtime import Ctx, FalsyCallable, Labels, Part, require
 
 PROP = "C20"
 WARM_LEGACY = True  # first-use order of the legacy classes differs between shards
@@ -124,11 +124,12 @@ def _check_tree(data: dict, lab: Labels) -> None:
         live_sub = {id(b.of(s)): i for i, s in enumerate(sub)}
         prune_l = lambda nd: bool(pm >> live_sub[id(nd)] & 1)  # noqa: E731
         flt_l = lambda nd: bool(fm >> live_sub[id(nd)] & 1)  # noqa: E731
+        P_, F_ = (FalsyCallable(prune_l), FalsyCallable(flt_l)) if (pm + fm) % 3 == 0 else (prune_l, flt_l)
         for skip_self in (False, True):
             for name, mode, call in (
-                ("dfs", "pre", lambda: start.dfs(prune=prune_l, filter=flt_l, skip_self=skip_self)),
-                ("dfs-bottom-up", "post", lambda: start.dfs(prune=prune_l, filter=flt_l, bottom_up=True, skip_self=skip_self)),
-                ("bfs", "bfs", lambda: start.bfs(prune=prune_l, filter=flt_l, skip_self=skip_self)),
+                ("dfs", "pre", lambda: start.dfs(prune=P_, filter=F_, skip_self=skip_self)),
+                ("dfs-bottom-up", "post", lambda: start.dfs(prune=P_, filter=F_, bottom_up=True, skip_self=skip_self)),
+                ("bfs", "bfs", lambda: start.bfs(prune=P_, filter=F_, skip_self=skip_self)),
             ):
                 exp = ref_order(start_s, prune_e, flt_e, mode, skip_self)
                 got = list(call())
